@@ -496,3 +496,15 @@ func Iter(self Object) (res Object, err error) {
 	}
 	return nil, ExceptionNewf(TypeError, "'%s' object is not iterable", self.Type().Name)
 }
+
+// sameObject reports whether a and b are the same object for objects
+// held by pointer (functions, methods, code objects, modules, ...); ok
+// is false for the other Go representations, which define their own
+// comparison methods.
+func sameObject(a, b Object) (same bool, ok bool) {
+	va, vb := reflect.ValueOf(a), reflect.ValueOf(b)
+	if !va.IsValid() || !vb.IsValid() || va.Kind() != reflect.Ptr || vb.Kind() != reflect.Ptr {
+		return false, false
+	}
+	return va.Type() == vb.Type() && va.Pointer() == vb.Pointer(), true
+}
